@@ -164,15 +164,6 @@ def strtab_rule(F, rep, q, stream):
         is_x = an.truth(st.facts, T.bin("Eq", ndx_field, T.const("u16", XINDEX), "u16"))
         if strs == ("agg", "option::Option", "None", ()):
             seen.add("none")
-            n_none += 1
-            # completeness: "no string table" is answered only when e_shstrndx is SHN_UNDEF or there are no section headers at all
-            no_shdrs = n[3][0] == ("agg", "option::Option", "None", ()) or any(
-                (f[0] == "true" and isinstance(f[1], Term) and "is_empty" in pp(f[1]) and "shdrs" in pp(f[1]))
-                or (f[0] == "eq" and f[2] == 0 and isinstance(f[1], Term) and "len" in pp(f[1]) and "shdrs" in pp(f[1])) for f in st.facts)
-            rep.require(is_undef is True or no_shdrs, "shstrndx", q + ":absent#%d" % n_none, w,
-                        "no string table only for e_shstrndx == SHN_UNDEF or an absent section header table",
-                        "%s answers `no string table` under a condition other than e_shstrndx == SHN_UNDEF / no section headers: the table e_shstrndx designates is withheld"
-                        % q)
             continue
         # Some(StringTable(buffer of shdrs[idx]))
         flds = prov.leaves_fields(strs)
@@ -198,6 +189,32 @@ def strtab_rule(F, rep, q, stream):
             seen.add("direct")
         else:
             rep.bad("shstrndx", q + ":outcome", w, "%s: string table located by %s, neither e_shstrndx nor shdr[0].sh_link" % (q, show(strs)[:300]))
+    # completeness: "no string table" is answered only when e_shstrndx is SHN_UNDEF or there are no section headers at all - judged on
+    # the decisions that by-pass the construction of the string table (so `a || b` in one test and a `match` on a pair are the same)
+    from ..hashrules import early_exits, cond_holds
+    ctor = [c for c in an.calls() if c.callee_qual == "string_table::StringTable::new" and c.block in an.entry]
+    if not ctor:
+        # the constructor is applied inside a combinator closure (`read_bytes(..).map(|b| (.., Some(StringTable::new(b))))`): the read of
+        # the table's bytes is the step every table-yielding path passes
+        reads = [c for c in an.calls() if c.block in an.entry and (c.callee_qual in ("elf_stream::CachingReader::read_bytes",) or c.declared_norm == "parse::ReadBytesExt::get_bytes")]
+        ctor = sorted(reads, key=lambda c: an.rpo_index[c.block])[-1:]
+
+    def absent_ok(d, val):
+        if d == norm(ndx_field):
+            return val == str(UNDEF)                     # `match e_shstrndx { SHN_UNDEF => .. }`
+        atom, pol = cond_holds(d, val)
+        txt = show(atom)
+        if atom[0] == "Eq" and len(atom) == 3 and norm(ndx_field) in atom[1:] and C(UNDEF) in atom[1:]:
+            return pol                                   # e_shstrndx == SHN_UNDEF
+        if "shdrs" in txt and "sh_" not in txt.replace("shdrs", "") and "e_sh" not in txt:
+            # a test of the section header table itself: is_empty() / len() == 0 / first() is None / section_headers() is None
+            return True
+        return False
+    if len(ctor) == 1:
+        early_exits(an, rep, "shstrndx", q, w, absent_ok, "e_shstrndx == SHN_UNDEF, no section headers", target=ctor[0].block,
+                    subject="the construction of the section-name string table", lost="the table e_shstrndx designates is withheld")
+    else:
+        rep.bad("shstrndx", q + ":early", w, "UNRECOGNISED: %d constructions of the string table (expected one)" % len(ctor))
     rep.require({"direct", "xindex", "none"} <= seen, "shstrndx", q + ":outcomes", w, "direct / SHN_XINDEX / absent outcomes present", "%s outcome classes: %s" % (q, sorted(seen)))
 
 
@@ -279,7 +296,7 @@ def entsize_rule(F, rep):
             okp, why = result_propagated(can, c)
             rep.require(okp, "entsize-validated", "%s|caller:%s" % (cq, caller["qual"]), c.where(), "the rejection is propagated by %s (%s)" % (caller["qual"], why),
                         "%s calls %s and does not turn its failure (a wrong entry size among them) into an error: %s" % (caller["qual"], cq, why))
-    rep.floor("entsize-validated", "callers of the validating functions", n_sites, 12 if "std" in F["config"]["features"] else 6)
+    rep.floor("entsize-validated", "callers of the validating functions", n_sites, 7 if "std" in F["config"]["features"] else 4)
     # the validator itself
     fn = F.fn("parse::ParseAt::validate_entsize")
     if fn is None:
